@@ -1,13 +1,29 @@
 (* C12 law 3 (weak-replaceable => fits) for ALL types outside the known class
    [known_weak_fit]; the supporting fact that is_functionally_equivalent_to
    implies can_fit_into for nominal-free found types. *)
-From Capy Require Import Common.Util Common.Ty Model.TyRel Model.ExpectMatch Spec.TyLaws Proofs.TyRelBasics.
+From Capy Require Import Common.Util Common.Ty.
+From Capy Require Import Model.TyRel Model.ExpectMatch Spec.TyLaws Proofs.TyRelBasics.
+From Coq Require Import Sumbool.
 Local Arguments ty_eqb : simpl never.
 Local Arguments N.eqb : simpl never.
 Local Arguments N.leb : simpl never.
 Local Arguments N.ltb : simpl never.
-Local Arguments members_rel : simpl never.
+Local Arguments TyRel.members_rel : simpl never.
 Local Arguments params_eqb : simpl never.
+
+Section WithFixes.
+Variable fx : fixes.
+Notation fit := (TyRel.fit fx).
+Notation weak := (TyRel.weak fx).
+Notation feq := (TyRel.feq fx).
+Notation cast := (TyRel.cast fx).
+Notation has_semantics_of := (TyRel.has_semantics_of fx).
+Notation tmax := (TyRel.tmax fx).
+Notation accepts := (TyLaws.accepts fx).
+Notation known_weak_fit := (TyLaws.known_weak_fit fx).
+Notation known_max := (TyLaws.known_max fx).
+Notation max_accepts := (TyLaws.max_accepts fx).
+Notation ntarget := (TyLaws.ntarget fx).
 
 Definition weak_head (a : ty) : bool :=
   match a with
@@ -24,7 +40,7 @@ Proof.
          | |- weak_head (UInt ?w) = _ => destruct w as [|?]
          | |- weak_head (TFloat ?w) = _ => destruct w as [|?]
          end; try reflexivity);
-    cbn [weak] in Hw; try discriminate; eauto.
+    cbn [TyRel.weak] in Hw; try discriminate; eauto.
 Qed.
 
 
@@ -82,7 +98,7 @@ Lemma zip_members_rel (R rel : ty -> ty -> bool) fms ems :
   (forall p q, In p fms -> In q ems -> R (snd p) (snd q) = true -> rel (snd p) (snd q) = true) ->
   members_rel rel fms ems = true.
 Proof.
-  intros Hd Hall Himp. unfold members_rel.
+  intros Hd Hall Himp. unfold TyRel.members_rel.
   rewrite (all2_length _ _ _ Hall), Nat.eqb_refl. cbn [andb].
   apply andb_true_iff. split.
   - apply forallb_forall. intros [n t] Hin.
@@ -101,9 +117,9 @@ Lemma feq_fit : forall f, has_nominal f = false ->
 Proof.
   induction f using ty_ind'; intros Hn; try discriminate Hn;
     induction x using ty_ind'; intros Hd Hq;
-    cbn [fit]; (destruct (ty_eqb _ _) eqn:E; [reflexivity|]);
+    cbn [TyRel.fit]; (destruct (ty_eqb _ _) eqn:E; [reflexivity|]);
     try reflexivity; try exact Hq;
-    cbn [feq] in Hq; try exact Hq; try congruence; try (apply IHx; assumption).
+    cbn [TyRel.feq] in Hq; try exact Hq; try congruence; try (apply IHx; assumption).
   - (* AnonArray, Array *)
     apply andb_true_iff in Hq as [-> Hq]. cbn [andb]. apply IHf; assumption.
   - apply andb_true_iff in Hq as [-> Hq]. cbn [andb]. apply IHf; assumption.
@@ -129,8 +145,15 @@ Proof.
     rewrite (IHf1 Hn1 _ Hd1 Hq1), (IHf2 Hn2 _ Hd2 Hq2). reflexivity.
 Qed.
 
-Lemma has_nominal_known_weak f : has_nominal f = false -> known_weak_fit f = false.
+Lemma has_nominal_known_weak0 f : has_nominal f = false -> known_weak_fit0 f = false.
 Proof. induction f using ty_ind'; cbn; auto; discriminate. Qed.
+
+Lemma known_weak_sub n f :
+  known_weak_fit (AnonArray n f) = false -> known_weak_fit f = false.
+Proof.
+  unfold TyLaws.known_weak_fit. cbn [known_weak_fit0]. destruct (fx_weak_nominal fx); cbn [negb andb]; auto.
+  apply has_nominal_known_weak0.
+Qed.
 
 Lemma weak_implies_fit_except_lem : forall e a,
   known_weak_fit a = false -> nodup_names e = true -> weak a e = true -> fit a e = true.
@@ -143,8 +166,8 @@ Proof.
          | weak_head (UInt ?w) = _ => destruct w as [|?]; try discriminate Hh
          | weak_head (TFloat ?w) = _ => destruct w as [|?]; try discriminate Hh
          end);
-    cbn [weak] in Hw; try discriminate Hw;
-    cbn [fit]; (destruct (ty_eqb _ _) eqn:E; [reflexivity|]);
+    cbn [TyRel.weak] in Hw; try discriminate Hw;
+    cbn [TyRel.fit]; (destruct (ty_eqb _ _) eqn:E; [reflexivity|]);
     try reflexivity; try exact Hw;
     try (cbn [nodup_names] in Hd; apply IHe; assumption).
   - destruct w; reflexivity.
@@ -152,17 +175,35 @@ Proof.
   - destruct w; reflexivity.
   - destruct w; reflexivity.
   - (* AnonArray, Array *)
-    cbn [known_weak_fit] in Hk. cbn [nodup_names] in Hd.
+    cbn [nodup_names] in Hd.
     apply andb_true_iff in Hw as [-> Hw]. cbn [andb].
     apply orb_true_iff in Hw as [Hw|Hw].
-    + apply IHe; auto using has_nominal_known_weak.
-    + apply feq_fit; assumption.
+    + apply IHe; eauto using known_weak_sub.
+    + apply andb_true_iff in Hw as [Hq Hf].
+      unfold TyLaws.known_weak_fit in Hk. cbn [known_weak_fit0] in Hk.
+      destruct (Sumbool.sumbool_of_bool (fx_weak_nominal fx)) as [Fx|Fx]; rewrite Fx in Hk; cbn [negb andb] in Hk.
+      * apply orb_true_iff in Hf as [Hf|Hf]; [rewrite Fx in Hf; discriminate Hf | exact Hf].
+      * apply feq_fit; assumption.
   - (* AnonArray, Slice *)
-    cbn [known_weak_fit] in Hk. cbn [nodup_names] in Hd.
+    cbn [nodup_names] in Hd.
     apply orb_true_iff in Hw as [Hw|Hw].
-    + apply IHe; auto using has_nominal_known_weak.
-    + apply feq_fit; assumption.
+    + apply IHe; eauto using known_weak_sub.
+    + apply andb_true_iff in Hw as [Hq Hf].
+      unfold TyLaws.known_weak_fit in Hk. cbn [known_weak_fit0] in Hk.
+      destruct (Sumbool.sumbool_of_bool (fx_weak_nominal fx)) as [Fx|Fx]; rewrite Fx in Hk; cbn [negb andb] in Hk.
+      * apply orb_true_iff in Hf as [Hf|Hf]; [rewrite Fx in Hf; discriminate Hf | exact Hf].
+      * apply feq_fit; assumption.
   - (* Ptr, Ptr *)
     apply andb_true_iff in Hw as [Hw Hw3]. apply andb_true_iff in Hw as [Hw1 Hw2].
-    rewrite Hw1, Hw2, Hw3. reflexivity.
+    rewrite Hw1, Hw2. cbn [andb]. apply orb_true_iff. left. exact Hw3.
 Qed.
+
+(* with the C12-1 fix in force the law holds in full *)
+Lemma weak_implies_fit_fixed : fx_weak_nominal fx = true ->
+  forall a e, nodup_names e = true -> weak a e = true -> fit a e = true.
+Proof.
+  intros Fx a e Hd Hw. apply (weak_implies_fit_except_lem e a); auto.
+  unfold TyLaws.known_weak_fit. rewrite Fx. reflexivity.
+Qed.
+
+End WithFixes.
